@@ -292,8 +292,8 @@ def check_scripted(case):
             res.fail(f'solve_t/{cls}/status-alphabet', f'{detail}: unexpected status values {sorted(alphabet)}')
         return res
     if want.exc in ('ValueError', 'IndexError'):
-        d = snapshot.first_diff_key(before_snap, snapshot.snapshot(m))
-        if d and not d.startswith('d._log'):
+        d = snapshot.first_diff_key(before_snap, snapshot.snapshot(m), ignore=('d._log', 'd._vals'))
+        if d:
             res.fail(f'solve_t/{cls}/rejected-call-changed-state', f'{detail}: changed {d}')
         return res
     ok = compare_states(res, f'solve_t/{cls}', m, ref, [nm for nm in endo + ['X'] if nm in ref['values']], detail) and ok
